@@ -154,6 +154,16 @@ def extract(config):
         if os.path.exists(failfile):
             raise AnalysisError("configuration %s does not build:\n%s" % (config, open(failfile).read()))
         os.makedirs(out, exist_ok=True)
+        # several checks started at the same time need the same configuration: only one process extracts it, the others wait
+        import fcntl
+        lockfh = open(os.path.join(out, ".lock"), "w")
+        fcntl.flock(lockfh, fcntl.LOCK_EX)
+        if os.path.exists(okfile):
+            lockfh.close()
+            return out
+        if os.path.exists(failfile):
+            lockfh.close()
+            raise AnalysisError("configuration %s does not build:\n%s" % (config, open(failfile).read()))
         tmp = tempfile.mkdtemp(prefix="mzsa-tgt-")
         try:
             env = dict(os.environ)
@@ -184,6 +194,7 @@ def extract(config):
                 fh.write("%.1f\n" % dt)
         finally:
             shutil.rmtree(tmp, ignore_errors=True)
+            lockfh.close()
     return out
 
 
